@@ -255,6 +255,8 @@ def oracle_builder(ctx, c, stats):
         except DerError as e:
             ctx.violation("C16:builder:emits-non-der", "builder output is not strict DER SignedData (%s)" % e, {"cases": [c]})
             return witness
+        if c.get("ci_raw") and ro["eci"] != bytes.fromhex(c["ci_raw"]):
+            problems.append("the catalog's ContentInfo was not taken over byte for byte")
         if ro["certs"] != sorted(bytes.fromhex(h) for h in c["certs"]):
             problems.append("certificates are not the chain's raw certificates")
         if field is not None:
@@ -276,7 +278,7 @@ def oracle_builder(ctx, c, stats):
             problems.append("signature does not verify over the emitted bytes (%s)" % r["sig_how"])
         if problems:
             if c["in_domain"]:
-                cat = ("attr-preimage" if "digested" in problems[0] else "mandatory-attrs" if "attribute" in problems[0]
+                cat = ("content" if "ContentInfo" in problems[0] else "attr-preimage" if "digested" in problems[0] else "mandatory-attrs" if "attribute" in problems[0]
                        else "signature" if "signature" in problems[0] else "certificates")
                 ctx.violation("C16:builder:" + cat, "%s [builder case %s]" % ("; ".join(problems), c["label"]), {"cases": [c], "round": i})
                 return witness
@@ -342,7 +344,8 @@ def rt_val(c):
 
 
 def b_val(c):
-    return [1, [Hex(c["ctype"]), Hex(c["digest"]), [c["mode"] != "detached", Hex(c["content_enc"])],
+    content = [2, Hex(c["ci_raw"])] if c["mode"] == "catalog" else [1 if c["mode"] != "detached" else 0, Hex(c["content_enc"])]
+    return [1, [Hex(c["ctype"]), Hex(c["digest"]), content,
                 [[Hex(p["oid"]), Hex(p["value"])] for p in (c["pre"] or [])],
                 [Hex(h) for h in c["certs"]], Hex(c["issuer"]), Hex(c["serial"]),
                 [Hex(c["dalg"][0]), Hex(c["dalg"][1])], [Hex(c["ealg"][0]), Hex(c["ealg"][1])],
@@ -475,8 +478,12 @@ def run(ctx, replay=None):
     if not st["harness_ok"]:
         return ctx.finish("proof", ctx.proof_coverage([], fp), [])
     if replay:
-        rp = json.load(open(replay))
-        cases = rp.get("cases", [])
+        # the inputs of the replay file are executed again on the code under test
+        rc, out, err = ctx.drv(["c16replay", replay], timeout=600)
+        if rc != 0:
+            ctx.violation("C16:driver-crash", "driver (replay) failed: " + err[-400:], {"stderr": err[-2000:]}, False)
+            out = ""
+        cases = [json.loads(l) for l in out.splitlines() if l.strip()]
         small = []
     else:
         rc, out, err = ctx.drv(["c16"], timeout=900)
@@ -495,6 +502,16 @@ def run(ctx, replay=None):
     # ---- 1. model-free oracle
     for c in rts:
         oracle_roundtrip(ctx, c, stats)
+    byname = {c["src"]: c for c in rts if not c["mut"]}
+    if "ms_catalog" in byname and "relicbin_hyperv_cat" in byname:
+        try:
+            a = regions(bytes.fromhex(byname["ms_catalog"]["x"]))
+            b = regions(bytes.fromhex(byname["relicbin_hyperv_cat"]["x"]))
+            if a["eci"] != b["eci"]:
+                ctx.violation("C16:catalog-resign:content", "`relic sign` of a catalog changed the signed catalog content", {"cases": [byname["relicbin_hyperv_cat"]]})
+            stats["catalog_resign_checked"] = 1
+        except DerError as e:
+            ctx.violation("C16:catalog-resign:non-der", "catalog (re)signed by the relic binary is not walkable: %s" % e, {"cases": [byname["relicbin_hyperv_cat"]]})
     witnesses = []
     for c in bs:
         witnesses += oracle_builder(ctx, c, stats)
